@@ -10,7 +10,7 @@
    [rerr s = true]: the read loop has recorded the failure (closeError ran). *)
 From Coq Require Import List ZArith Bool.
 Import ListNotations.
-From Goat Require Import Model.Client Proofs.ClientBase Proofs.ClientInv Proofs.ClientLog Proofs.ClientLive Proofs.ClientProps Proofs.ClientTerm Proofs.ClientAfter Proofs.ClientRoute Proofs.ClientNI.
+From Goat Require Import Model.Client Proofs.ClientBase Proofs.ClientInv Proofs.ClientLog Proofs.ClientLive Proofs.ClientProps Proofs.ClientTerm Proofs.ClientAfter Proofs.ClientRoute Proofs.ClientNI Proofs.ClientExact.
 Open Scope Z_scope.
 
 (* (Q) settles: after the failure, in every quiescent state, a call none of whose threads the environment holds
@@ -74,6 +74,19 @@ Theorem C09_after_fails : forall ls1 s1 ls2 s2,
        (quiescent s2 = true -> call_pending k = false /\ (k_pc k = PRet \/ k_pc k = POpenFailed))).
 Proof. exact C09_after_l. Qed.
 Print Assumptions C09_after_fails.
+
+(* "... or the exact result, if its complete response had already been delivered": the failure never overtakes a
+   delivered envelope. A stream whose read loop ended with the connection error (what every later RecvMsg / SendMsg
+   then reports) had nothing left that was read for it: its queue is empty, the read loop holds nothing for it, and
+   every envelope the read loop ever routed to it it had taken (at most one was lost, by the stream's own earlier
+   unregistration: C05_route_exact). So a reply / final status / message that reached the call's queue before the
+   failure was recorded is always what the call gets first. (Unary calls take their reply the moment it is queued;
+   on the observed histories this is spec reason 10.) *)
+Theorem C09_exact_result : forall ls s, lrun init ls = Some s ->
+  forall c k, nth_error (calls s) c = Some k -> l_rerr k = Some EConn ->
+    rerr s = true /\ chan_q k = [] /\ held s c = [] /\ routed c (log s) = taken c (log s) ++ dropped c (log s).
+Proof. exact C09_exact_l. Qed.
+Print Assumptions C09_exact_result.
 
 (* the VALUE of the transport's read error does not matter. The model is parametric in it (AFailRead carries no
    value: the recorded error is the token EConn whatever Read failed with, io.EOF included; the stream loop turns it
